@@ -190,6 +190,7 @@ func GenPlan(prop string, seed int64, tier string, guards map[string]bool) *Plan
 	}
 	// drawn last, from its own stream: how the handler sees the end of a body
 	p.Config.LateEOF = rand.New(rand.NewSource(seed^0x6c617465)).Intn(4) == 0
+	p.Config.DirOrder = p.Config.IsFS() && rand.New(rand.NewSource(seed^0x6469726f)).Intn(2) == 0
 	// likewise: requests that carry x-amz-date, and a clock that steps forwards
 	// and backwards between operations (NTP corrections, a VM resumed, a test
 	// that sets the time source): nothing a property promises depends on the
@@ -538,8 +539,8 @@ func (g *G) genC03(p *Plan, paging bool) {
 	c.PageErr = paging && g.chance(0.3)
 	c.Versioned = c.Backend == "mem" && g.chance(0.3)
 	b := c.Buckets[0]
-	if paging && g.chance(0.04) {
-		g.genLargeBucket(p, b)
+	if (paging || c.Backend != "mem") && !c.Faulty && g.chance(0.012) {
+		g.genLargeBucket(p, b, paging)
 		return
 	}
 	keys := g.listKeys(g.n(2, 14), c.IsFS())
@@ -654,7 +655,7 @@ func (g *G) genC03(p *Plan, paging bool) {
 // 1000 (a limit that code paths written for "a few dozen keys" never meet):
 // whole pages of 1000, a common prefix that rolls up more than a page worth of
 // keys with visible entries behind it, markers in the middle of the run.
-func (g *G) genLargeBucket(p *Plan, b string) {
+func (g *G) genLargeBucket(p *Plan, b string, paging bool) {
 	c := &p.Config
 	c.Versioned = false
 	n := g.pick2(1000, 1001, 1203, 2000, 2001, 2500)
@@ -678,6 +679,7 @@ func (g *G) genLargeBucket(p *Plan, b string) {
 		case 2:
 			op.Prefix = g.pick("bulk/", "bulk/0", "bulk/00", "bulk", "b")
 			op.Max = g.pick2(0, 400, 1000, 1001)
+			op.Delim = g.pick("", "/") // one directory with more entries than a readdir batch
 		case 3:
 			op.HasMk = true
 			op.Marker = fmt.Sprintf("bulk/%05d", g.rng.Intn(n))
@@ -690,6 +692,9 @@ func (g *G) genLargeBucket(p *Plan, b string) {
 			op.K = "list"
 			op.Max = g.pick2(1, 999, 1000, 1001, 2147483647)
 			op.Delim = g.pick("", "/")
+		}
+		if !paging {
+			op.K, op.Max, op.HasMk, op.Marker = "list", 0, false, ""
 		}
 		ops = append(ops, op)
 		if g.chance(0.3) {
